@@ -66,13 +66,27 @@ fn clean_menu(u: i32) -> Vec<Vec<ds::Horizontal>> {
         vec![disc("", "", 1), ch('c')],
         // two replaced nodes, the second a font kern
         vec![disc("-", "b", 2), ch('c'), kern(u, ds::KernKind::Normal)],
+        // the other kern kinds followed by glue: never breakpoints themselves (§866 tests subtype = explicit),
+        // the glue after them is one (§868: kern_node with subtype <> explicit)
+        vec![kern(u, ds::KernKind::Accent), g(u, 2, 1, 1)],
+        vec![kern(u, ds::KernKind::Math), g(u, 2, 1, 1)],
+    ]
+}
+/// Pre-break lists that are not empty but measure 0sp: \\hyphenpenalty applies (§869 tests `s = null`).
+fn zero_width_prebreak_discs(u: i32) -> Vec<ds::Horizontal> {
+    vec![
+        conv::disc_of(vec![ch('|')], vec![], 0),
+        conv::disc_of(vec![kern(0, ds::KernKind::Normal)], vec![], 0),
+        conv::disc_of(vec![kern(2 * u, ds::KernKind::Normal), kern(-2 * u, ds::KernKind::Normal)], vec![ch('c')], 0),
     ]
 }
 /// The 13 items used where the full menu would be too wide (both kinds of discretionary: with and
 /// without pre-break material, so that \\hyphenpenalty and \\exhyphenpenalty both matter).
 fn reduced_menu(u: i32) -> Vec<Vec<ds::Horizontal>> {
     let m = clean_menu(u);
-    [0usize, 1, 2, 4, 5, 9, 10, 13, 14, 15, 16, 17, 18].iter().map(|i| m[*i].clone()).collect()
+    let mut v: Vec<Vec<ds::Horizontal>> = [0usize, 1, 2, 4, 5, 9, 10, 13, 14, 15, 16, 17, 18].iter().map(|i| m[*i].clone()).collect();
+    v.push(vec![zero_width_prebreak_discs(u).remove(0)]);
+    v
 }
 /// The 8 items of the looseness probe.
 fn looseness_menu(u: i32) -> Vec<Vec<ds::Horizontal>> {
@@ -151,12 +165,37 @@ fn discs_menu(u: i32) -> Vec<Vec<ds::Horizontal>> {
         vec![g(u, 2, 3, 0)],
         vec![pen(50)],
         vec![],
+        vec![zero_width_prebreak_discs(u).remove(0)],
+        vec![zero_width_prebreak_discs(u).remove(1)],
+        vec![zero_width_prebreak_discs(u).remove(2)],
+        // every element kind a discretionary list may hold (§841-842, §870-871): ligature, kern, box, rule
+        vec![conv::disc_of(vec![conv::lig('f', "ff")], vec![kern(u, ds::KernKind::Normal)], 0)],
+        vec![conv::disc_of(vec![ch('-')], vec![ds::Horizontal::HBox(ds::HBox { width: Scaled(2 * u), ..Default::default() })], 1), ds::Horizontal::Rule(ds::Rule { height: Scaled(u), width: Scaled(2 * u), depth: Scaled(0) })],
+    ]
+}
+
+/// A kern among the nodes a discretionary replaces (§869 passes over them; afterwards prev_p is the
+/// discretionary, so glue right after the replaced run is a legal breakpoint whatever the last replaced
+/// node is), next to a few ordinary separators.
+fn replaced_kerns_menu(u: i32) -> Vec<Vec<ds::Horizontal>> {
+    vec![
+        vec![disc("-", "", 1), kern(u, ds::KernKind::Explicit), g(u, 2, 1, 1)],
+        vec![disc("-", "", 1), kern(u, ds::KernKind::Normal), g(u, 2, 1, 1)],
+        vec![disc("-", "", 1), kern(u, ds::KernKind::Accent), g(u, 2, 1, 1)],
+        vec![disc("", "c", 1), kern(u, ds::KernKind::Explicit), g(u, 2, 1, 1)],
+        vec![disc("-", "b", 2), ch('c'), kern(u, ds::KernKind::Explicit)],
+        vec![disc("-", "", 2), ch('c'), kern(u, ds::KernKind::Explicit), g(u, 1, 1, 1)],
+        vec![g(u, 2, 1, 1)],
+        vec![g(u, 2, 3, 0)],
+        vec![pen(50)],
+        vec![],
     ]
 }
 
 fn menu_by_name(name: &str, u: i32) -> Vec<Vec<ds::Horizontal>> {
     match name {
         "discs" => discs_menu(u),
+        "replaced-kerns" => replaced_kerns_menu(u),
         "stretchy" => stretchy_menu(u),
         "orders" => orders_menu(u),
         "clean" => clean_menu(u),
@@ -636,6 +675,33 @@ fn check_instance(idx: u64, inst: &Inst, acc: &mut Acc) {
     if (0..o.bps.len()).any(|b| { let bb = o.fit(0, b, 1).0; bb == o.threshold + 1 && bb <= reftex::arith::INF_BAD }) {
         acc.count("first_line_candidate_with_badness_one_above_the_threshold");
     }
+    if inst.list.windows(2).any(|w| matches!(&w[0], ds::Horizontal::Kern(k) if matches!(k.kind, ds::KernKind::Accent | ds::KernKind::Math)) && matches!(&w[1], ds::Horizontal::Glue(_))) {
+        acc.count("non_explicit_non_font_kern_followed_by_glue");
+    }
+    if mlist.iter().any(|n| matches!(n, kp::Node::Disc { pre, .. } if !pre.is_empty() && pre.iter().map(|e| e.disc_width()).sum::<i64>() == 0)) {
+        acc.count("disc_with_nonempty_prebreak_of_zero_width");
+        if mp.hyphen_penalty != mp.ex_hyphen_penalty {
+            acc.count("…with hyphen_penalty different from ex_hyphen_penalty");
+        }
+    }
+    {
+        // a kern inside a replaced run
+        let mut i = 0;
+        while i < inst.list.len() {
+            if let ds::Horizontal::Discretionary(d) = &inst.list[i] {
+                let end = (i + 1 + d.replace_count as usize).min(inst.list.len());
+                if inst.list[i + 1..end].iter().any(|n| matches!(n, ds::Horizontal::Kern(k) if k.kind == ds::KernKind::Explicit)) {
+                    acc.count("explicit_kern_among_replaced_nodes");
+                    if matches!(inst.list.get(end), Some(ds::Horizontal::Glue(_))) && matches!(inst.list.get(end.wrapping_sub(1)), Some(ds::Horizontal::Kern(k)) if k.kind == ds::KernKind::Explicit) {
+                        acc.count("glue_right_after_a_replaced_explicit_kern");
+                    }
+                }
+                i = end;
+            } else {
+                i += 1;
+            }
+        }
+    }
     // the limits of §831 reached through a parameter, on a list that has a discretionary of the matching kind
     for n in &mlist {
         if let kp::Node::Disc { pre, .. } = n {
@@ -1003,14 +1069,28 @@ fn spaces(quick: bool) -> Vec<Space> {
         },
         Space {
             name: "disc-penalties",
-            what: "the penalty of a discretionary break comes from a parameter: \\hyphenpenalty and \\exhyphenpenalty each at -20000, -10001, -10000, -9999, 9999, 10000, 10001, 20000 (forced break at or below -10000, no break at or above 10000, §831), on lists that hold discretionaries of the matching kind; narrow and wide lines".into(),
+            what: "the penalty of a discretionary break comes from a parameter: \\hyphenpenalty and \\exhyphenpenalty each at -20000, -10001, -10000, -9999, 9999, 10000, 10001, 20000 (forced break at or below -10000, no break at or above 10000, §831), on lists that hold discretionaries of the matching kind; narrow (9u) and wide (20u) lines".into(),
             menu: "discs",
             nb: if quick { 4 } else { 5 },
             units: vec![PT],
-            widths: vec![vec![9], vec![12], vec![20]],
+            widths: vec![vec![9], vec![20]],
             tolerances: vec![200, 10000],
             pairs: false,
             pvar_sel: vec![0, 29, 30, 31, 32, 23, 33, 28, 34, 35, 24, 8, 25, 36, 9, 37, 38],
+            loosenesses: vec![0],
+            forces: vec![false],
+            endings: vec![0],
+        },
+        Space {
+            name: "replaced-kerns",
+            what: "kerns of every kind among the nodes a discretionary replaces, followed by glue or not (TeX §869 passes over replaced nodes; glue after the run is a breakpoint because prev_p is the discretionary)".into(),
+            menu: "replaced-kerns",
+            nb: if quick { 4 } else { 5 },
+            units: vec![PT],
+            widths: vec![vec![9], vec![12], vec![12, 7]],
+            tolerances: vec![200, 10000],
+            pairs: false,
+            pvar_sel: vec![0, 31],
             loosenesses: vec![0],
             forces: vec![false],
             endings: vec![0],
@@ -1112,6 +1192,12 @@ fn edge_nodes(u: i32) -> Vec<ds::Horizontal> {
         kern(0, ds::KernKind::Normal),
         math(false),
         math(true),
+        // every variant the breaker matches on: the other kern kinds, a ligature, a box, a rule
+        kern(u, ds::KernKind::Accent),
+        kern(u, ds::KernKind::Math),
+        conv::lig('f', "ff"),
+        ds::Horizontal::HBox(ds::HBox { width: Scaled(4 * u), ..Default::default() }),
+        ds::Horizontal::Rule(ds::Rule { height: Scaled(u), width: Scaled(2 * u), depth: Scaled(0) }),
     ]
 }
 
@@ -1308,7 +1394,7 @@ fn main() {
     let mut ctx = Ctx::new("C04", Level::Exploration);
     ctx.assume("the premise of the property is checked per instance by the model: for every line start and every line number, 'the line is overfull' is upward closed in the line end; other instances are skipped and counted (skipped_non_monotone)");
     ctx.assume("a line's width, stretch and shrink are what TeX's try_break measures (§823, §837-844): background + totals up to the break - totals up to the previous break - the discardable items that follow the previous break; this is the definition the demerits of the property refer to");
-    ctx.assume("lists have at most 12 legal breakpoints (every sequence of them is enumerated); glue in a paragraph has finite shrink (§825 makes anything else an error); discretionary lists are characters, the nodes a discretionary replaces are characters or font kerns (a directed probe shows the crate examines replaced nodes as ordinary nodes, so a replaced *explicit* kern followed by glue becomes a breakpoint where TeX §869 passes over it - outside the enumerated alphabet, reported in the build notes)");
+    ctx.assume("lists have at most 12 legal breakpoints (every sequence of them is enumerated); glue in a paragraph has finite shrink (§825 makes anything else an error); discretionary lists and replaced runs hold characters, ligatures, kerns of every kind, boxes and rules (§869-871)");
     ctx.assume("total demerits stay below awful_bad = 2^30-1 (§833; TeX itself has no defence beyond it): instances where the total of some feasible prefix reaches it are skipped and counted; |adj_demerits| itself may be as large as awful_bad (§836 clamps the threshold)");
     ctx.assume("force_solution = true is only exercised when a feasible sequence exists (the artificial-demerits rescue of §854 is outside the property, which is stated for force_solution = false)");
     ctx.assume("per-step oracle (debug::Logger is listed under observe_at): what the Logger reports must be true - b, p, d of every reported feasible breakpoint and the fitness class and total of every reported active node are recomputed by the model from (predecessor, position); legality of the break, forced breaks and the threshold are enforced. Which breakpoints/nodes are reported, their order, the node numbers, the line-number/hyphenation bookkeeping fields and log_selected_node are not judged (recorded as 'note:' outcome classes). The table of active nodes carries the model's values, not the logged ones");
@@ -1381,6 +1467,11 @@ fn main() {
     ctx.require("…ex_hyphen_penalty strictly below -10000", "the same with \\exhyphenpenalty < -10000");
     ctx.require("break_forbidden_at_discretionary_via_hyphen_penalty", "\\hyphenpenalty >= 10000 on a list with a discretionary that has pre-break material");
     ctx.require("break_forbidden_at_discretionary_via_ex_hyphen_penalty", "\\exhyphenpenalty >= 10000 on a list with a discretionary without pre-break material");
+    ctx.require("non_explicit_non_font_kern_followed_by_glue", "an accent or math kern directly followed by glue (not a breakpoint, §866)");
+    ctx.require("disc_with_nonempty_prebreak_of_zero_width", "a discretionary whose pre-break list is not empty but measures 0sp");
+    ctx.require("…with hyphen_penalty different from ex_hyphen_penalty", "the same with the two penalties different, so the choice is visible");
+    ctx.require("explicit_kern_among_replaced_nodes", "an explicit kern inside the run a discretionary replaces");
+    ctx.require("glue_right_after_a_replaced_explicit_kern", "glue directly after a replaced run that ends in an explicit kern");
     ctx.require("skipped_non_monotone", "the model detects instances outside the monotonicity premise");
     ctx.require("logged_feasible_breakpoints_checked", "feasible breakpoints reported through debug::Logger and checked against the model");
     ctx.finish("one evaluation = one call of break_line_single_attempt on an enumerated (list, line widths, tolerance, parameters) instance, judged end to end against the brute-force optimum over every sequence of legal breakpoints and per step against the model's badness/penalty/demerits for every logged feasible breakpoint; non-trivial = at least two feasible sequences with different total demerits");
